@@ -249,6 +249,10 @@ pub enum BCall {
     CheckDistance(usize),
     MaxFramesBehind(usize),
     CatchupSpeed(usize),
+    /// with_disconnect_timeout, in ms (any value is documented as acceptable)
+    Timeout(u64),
+    /// with_disconnect_notify_delay, in ms (may exceed the timeout: the setters are independent)
+    Notify(u64),
 }
 
 #[derive(Serialize, Deserialize, Clone, Debug, PartialEq)]
